@@ -3,6 +3,7 @@ import RsyncModel.Checksum
 import RsyncModel.Delta.Go
 import RsyncModel.Mux
 import RsyncModel.RecvData
+import RsyncModel.Generator
 /-! # Tie theorems: the regenerated translations of the Go source equal the hand models
 
 `Gen/Pure.lean` is rewritten from /repo on every run by `tools/extract/pure.go`. Each theorem here
@@ -426,5 +427,71 @@ theorem readFrom_tied (sh0 : Gen.Pure.SumHead) (r0 r1 r2 r3 : Int32) (rest : Wir
             · have c4b : ¬ r1 = 0 := fun h => c4 ⟨c4a, h⟩
               simp [c0, c1a, c1b, c1', c2a, c2b, c2', c3a, c3b, c3, c4a, c4b, n1, n2]
             · simp [c0, c1a, c1b, c1', c2a, c2b, c2', c3a, c3b, c3, c4a, n1, n2]
+
+
+/-! ## the update rule (`skipFile`, `modTimeEqual`, generator.go) -/
+
+/-- modification times are compared at one-second granularity: whatever the sub-second parts -/
+theorem modTimeEqual_tied (s1 s2 a b : Int) (ha : 0 ≤ a ∧ a < 1000000000) (hb : 0 ≤ b ∧ b < 1000000000) :
+    Gen.Pure.modTimeEqual (s1 * 1000000000 + a) (s2 * 1000000000 + b) = (s1 == s2) := by
+  unfold Gen.Pure.modTimeEqual Go.truncSec
+  simp only
+  have e1 : (s1 * 1000000000 + a) - (s1 * 1000000000 + a) % 1000000000 = s1 * 1000000000 := by omega
+  have e2 : (s2 * 1000000000 + b) - (s2 * 1000000000 + b) % 1000000000 = s2 * 1000000000 := by omega
+  rw [e1, e2]
+  by_cases h : s1 = s2
+  · subst h
+    rw [beq_self_eq_true, beq_self_eq_true]
+  · have : ¬ (s1 * 1000000000 = s2 * 1000000000) := by omega
+    rw [beq_eq_false_iff_ne.mpr this, beq_eq_false_iff_ne.mpr h]
+
+/-- **`skipFile` as the source has it is the model's update rule** (`Rx.skipFile`): size, then the
+content checksum under `-c`, then `-I`, then the modification time to the second — for every option
+set, entry and destination node, whatever the sub-second parts of the two times; it never fails on
+the success path of the checksum read -/
+theorem skipFile_tied (o : Rx.Opts) (e : Rx.Entry) (n : Rx.Node) (dsum : Bytes) (a b : Int)
+    (ha : 0 ≤ a ∧ a < 1000000000) (hb : 0 ≤ b ∧ b < 1000000000) :
+    Gen.Pure.skipFile n.size e.size o.checksum o.ignoreTimes (e.sum == n.sum) dsum
+        (n.mtime * 1000000000 + a) (e.mtime * 1000000000 + b)
+      = .ok (Rx.skipFile o e n) := by
+  unfold Gen.Pure.skipFile Rx.skipFile
+  rw [modTimeEqual_tied _ _ a b ha hb]
+  by_cases h1 : n.size = e.size
+  · simp only [h1, bne_self_eq_false, Bool.false_eq_true, if_false]
+    cases o.checksum <;> cases o.ignoreTimes <;> simp
+  · have : (n.size != e.size) = true := by simpa using h1
+    simp [this]
+
+/-! ## `--delete` and the sender's I/O error flag (receiver/do.go) -/
+
+/-- deletion is skipped exactly when the flag the sender reported is positive -/
+theorem deleteGuard_tied (v : Int32) : Gen.Pure.deleteGuard v false = decide (0 < v.toInt) := by
+  unfold Gen.Pure.deleteGuard
+  simp only
+  have : (v > (0 : Int32)) ↔ 0 < v.toInt := by rw [gt_iff_lt, Int32.lt_iff_toInt_lt]; rfl
+  by_cases h : 0 < v.toInt
+  · simp [h, this.mpr h]
+  · have h' : ¬ (v > (0 : Int32)) := fun hh => h (this.mp hh)
+    simp [h, h']
+
+/-! ## what `matched` hashes (match.go) -/
+
+/-- the span fed to the whole-file hash by one call of `matched` starts at the old `lastMatch`, and the
+new `lastMatch` is exactly its end: consecutive calls hash consecutive, non-overlapping spans of the
+file; a block reference adds the block's length, the two pseudo-tokens (-1, -2) add nothing -/
+theorem matchedSpan_tied (offset lastMatch sumLen : Int) (i : Int32) :
+    Gen.Pure.matchedSpan offset i lastMatch sumLen =
+      .ok (offset - lastMatch + (if i.toInt < 0 then 0 else sumLen), offset + (if i.toInt < 0 then 0 else sumLen)) := by
+  unfold Gen.Pure.matchedSpan
+  have : (i < (0 : Int32)) ↔ i.toInt < 0 := by rw [Int32.lt_iff_toInt_lt]; rfl
+  by_cases h : i.toInt < 0
+  · simp [h, this.mpr h]
+  · have h' : ¬ (i < (0 : Int32)) := fun hh => h (this.mp hh)
+    simp [h, h']
+
+theorem matchedSpan_contiguous (offset lastMatch sumLen : Int) (i : Int32) :
+    ∃ n lm', Gen.Pure.matchedSpan offset i lastMatch sumLen = .ok (n, lm') ∧ lm' = lastMatch + n := by
+  refine ⟨_, _, matchedSpan_tied offset lastMatch sumLen i, ?_⟩
+  omega
 
 end PureTie
